@@ -284,6 +284,7 @@ def check_held_response(r: Dict[str, Any], handler, bad, wire, when: str):
         bad({"class": "held-response-changed", "when": when,
              "member": "protocolVersion" if not strict_eq(pv, r["answered"]) else "other"},
             f"the response object of the earlier initialize changed {when}: it was {r['snap']}, it is now {now}", wire)
+        r["snap"] = now     # a later check reports only a further change
         return
     s1 = handler.session_manager.get_session(r["sid"]) if r.get("sid") else None
     raw = getattr(r["resp"], "result", None)
@@ -423,6 +424,8 @@ def run_pairing(cfg) -> Dict[str, Any]:
                     if sid:
                         state["session"] = sid
                     if resp is not None:
+                        if w.get("method") == "initialize":
+                            state["held"] = (resp, _snapshot(resp))   # the server side keeps the object while the handshake goes on
                         await s2c_send.send(parse_message(to_wire(resp)))
 
             async with anyio.create_task_group() as tg:
@@ -481,6 +484,10 @@ def run_pairing(cfg) -> Dict[str, Any]:
         viol.append({"sig": {"class": "handshake-ended-otherwise", "end": kind},
                      "msg": f"client supported={client_list} preferred={preferred!r}: handshake ended with {kind} "
                             f"{detail!r}; pump errors {pump_errors[:1]}"})
+    if state.get("held") is not None and _snapshot(state["held"][0]) != state["held"][1]:
+        viol.append({"sig": {"class": "held-response-changed", "when": "after-the-rest-of-the-handshake"},
+                     "msg": f"the initialize response object changed while the handshake went on: was {state['held'][1]}, "
+                            f"is {_snapshot(state['held'][0])} (client list {client_list}, preferred {preferred!r})"})
     if errors:
         viol.append({"sig": {"class": "loop-error"}, "msg": f"{errors[:2]}"})
     obs["outcome"] = kind + (":" + vkind(detail) if kind == "ok" else "")
@@ -545,8 +552,11 @@ def run_twostep(cfg) -> Dict[str, Any]:
         r1["sid_taken_over"] = bool(r1["sid"]) and r1["sid"] == r2["sid"]
         check_held_response(r1, handler, bad, w2, "after-a-second-initialize")
         # ... and after traffic that mutates nothing
-        await handler.handle_message(parse_message({"jsonrpc": "2.0", "id": 8, "method": "ping"}), r2["sid"])
-        await handler.handle_message(parse_message({"jsonrpc": "2.0", "method": "notifications/initialized"}), r2["sid"])
+        for later in ({"jsonrpc": "2.0", "id": 8, "method": "ping"}, {"jsonrpc": "2.0", "method": "notifications/initialized"}):
+            try:
+                await handler.handle_message(parse_message(later), r2["sid"])
+            except Exception:  # noqa: BLE001 - dispatch robustness is C08's subject
+                pass
         check_held_response(r1, handler, bad, w2, "after-ping-and-initialized")
         r2["sid_taken_over"] = False
         check_held_response(r2, handler, bad, w2, "after-ping-and-initialized")
@@ -721,9 +731,12 @@ def run(tier: str, only=None) -> core.Result:
     )
     res.assumptions = [
         "the supported set is read from chuk_mcp.protocol.types.versioning.SUPPORTED_VERSIONS (the statement is relative to it)",
-        "an error response to an unsupported / malformed / absent version is accepted (it acknowledges nothing); an error for a "
-        "supported version is not",
-        "an absent protocolVersion may be answered with any supported version",
+        "every requested value - supported, unsupported, malformed, non-string, absent - must be answered with a success result "
+        "carrying a supported version and a session recording it; an error answer is a violation (the statement says: otherwise "
+        "with a version it does support)",
+        "a response object handed back by handle_message is held by the harness across later messages (second initialize, ping, "
+        "initialized) and must serialise to the same text afterwards",
+        "an absent protocolVersion may be answered with any supported version (not with an error)",
         "two-step part: if a second initialize returns no new session id while carrying a live one, the carried session is taken as "
         "the session it recorded; whether a second initialize creates a new session is C19's subject",
         "the pairing pump carries wire dicts (model_dump(exclude_none) -> JSON -> parse_message) like a transport; "
